@@ -17,7 +17,12 @@ use std::path::{Path, PathBuf};
 pub struct LuauRequireMode {
     #[serde(default = "default_use_luau_configuration")]
     use_luau_configuration: bool,
-    #[serde(default, skip_serializing_if = "HashMap::is_empty", alias = "sources")]
+    #[serde(
+        default,
+        skip_serializing_if = "HashMap::is_empty",
+        alias = "sources",
+        deserialize_with = "crate::utils::deserialize_unique_map"
+    )]
     aliases: HashMap<String, PathBuf>,
     #[serde(skip)]
     luau_rc_aliases: Option<HashMap<String, PathBuf>>,
